@@ -25,7 +25,7 @@ RULEVARS = ["command", "description", "depfile", "deps", "rspfile", "rspfile_con
 
 # ----------------------------------------------------------------------------- the bounded families
 FULL = dict(MaxStmts=7, MaxBinds=3, MaxRules=2, MaxBuilds=2, MaxNest=2, MaxMisc=1,
-            FBSel="{1,2,3,4,5,6,7,8,9,10,11}", RCSel="{1,2,3,4,5}", RDSel="{1,2,3}", RESel="{1,2,3,4,5,6,7,8}", RNSel="{1,2}",
+            FBSel="{1,2,3,4,5,6,7,8,9,10,11}", RCSel="{1,2,3,4,5,6}", RDSel="{1,2,3,4}", RESel="{1,2,3,4,5,6,7,8}", RNSel="{1,2}",
             BBSel="{1,2,3,4,5,6,7,8,9,10}", OutSel="{1,2,3,4}", InSel="{1,2,3,4,5,6}", BRSel="{1,2,3}",
             NestKinds='{"include","subninja"}', EmitAll="FALSE")
 def fam(**kw):
@@ -47,6 +47,11 @@ SLICES_QUICK = {
                  RDSel="{1}", RESel="{8}", RNSel="{1}", BBSel="{1,9}", OutSel="{1,3}", InSel="{2}", BRSel="{1}"),
     "empty2": fam(MaxStmts=4, MaxBinds=2, MaxRules=1, MaxBuilds=1, MaxNest=0, MaxMisc=0, FBSel="{5,10,11}", RCSel="{2,3}",
                   RDSel="{1,2}", RESel="{1,8}", RNSel="{1}", BBSel="{1,10}", OutSel="{1}", InSel="{2}", BRSel="{1}"),
+    # a rule variable read more than once inside one expansion (directly, and one level down through `description`), with the
+    # variable defined at rule level, overridden at build level, empty, or only at file level  (seed C17_7: the loader's
+    # "being expanded" mark was not removed, the second read reported a bogus cycle and expanded to nothing)
+    "twice": fam(MaxStmts=4, MaxBinds=1, MaxRules=1, MaxBuilds=1, MaxNest=0, MaxMisc=0, FBSel="{1,5}", RCSel="{5,6}",
+                 RDSel="{1,2,4}", RESel="{1,2,3,4,8}", RNSel="{1}", BBSel="{1,5}", OutSel="{1}", InSel="{2}", BRSel="{1}"),
     # escapes and continuations in every position, depfile/deps/rspfile/generator/restat/pool, default, pool
     "attrs": fam(MaxStmts=4, MaxBinds=1, MaxRules=1, MaxBuilds=1, MaxNest=0, MaxMisc=1, FBSel="{6,8}", RCSel="{4}",
                  RDSel="{1}", RESel="{2,3,4,5,6,7}", RNSel="{2}", BBSel="{1,5,6,7,8}", OutSel="{1,4}", InSel="{2}", BRSel="{2}"),
@@ -337,7 +342,7 @@ def expected_of(case, V):
     cmds = []
     for c in e["cmds"]:
         d = dict(outs=[V.subst(p) for p in c["outs"]], ins=[V.subst(p) for p in c["ins"]], imps=[V.subst(p) for p in c["imps"]],
-                 oos=[V.subst(p) for p in c["oos"]], rule=c["rule"], excl=c["excl"], up=c["up"], nbinds=c["nbinds"], sc=c["sc"],
+                 oos=[V.subst(p) for p in c["oos"]], rule=c["rule"], excl=c["excl"], twice=c.get("twice", False), up=c["up"], nbinds=c["nbinds"], sc=c["sc"],
                  fsp={k: [V.subst(p) for p in c["fsp"][k]] for k in ("outs", "ins", "imps", "oos")},
                  vals={k: seg_bytes(c["vals"][k], V) for k in RULEVARS}, ninja={k: seg_bytes(c["ninja"][k], V) for k in RULEVARS})
         cmds.append(d)
@@ -522,7 +527,7 @@ def parse_query(out, targets):
         res.append(d)
     return res
 
-def check_ninja(exp, d, words=None):
+def check_ninja(exp, d, words=None, declined=None, lenient=False):
     """returns list of spec-mismatch texts"""
     bad = []
     if not exp["cmds"]: return bad
@@ -541,7 +546,20 @@ def check_ninja(exp, d, words=None):
                 if a[cls] != c[cls]: bad.append("ninja: %s of %r are %r, specification says %r" % (cls, o, a[cls], c[cls]))
         r = subprocess.run([NINJA, "-f", "build.ninja", "-t", "commands", "-s", c["outs"][0]], cwd=d, capture_output=True, timeout=60)
         if r.returncode != 0:
+            # ninja 1.11.1 never removes a rule variable from EdgeEnv::lookups_ once it has been expanded, so the SECOND read of
+            # one rule variable inside a nested expansion is reported as "cycle in rule variables" although nothing is cyclic
+            # (its manual: rule variables are expanded lazily, each time they are referenced).  Every rule of the enumerated
+            # family satisfies Acyclic (NinjaEval.tla), so such a fatal error is that false cycle: the reference declines to
+            # evaluate, the specification is not validated on this statement, and nothing is compared.
+            # NinjaEval.tla!RefFalseCycle transcribes the reference's walk and says for which statements this happens (field
+            # `twice`); the prediction itself is validated here in both directions.  (lenient: the variant with another rule
+            # variable in the place of `command`, for which the prediction was not computed.)
+            if b"cycle in rule variables" in (r.stdout + r.stderr) and (c.get("twice") or lenient):
+                if declined is not None: declined.append(c["outs"][0])
+                continue
             bad.append("ninja -t commands failed: %s" % (r.stdout + r.stderr)[-300:].decode("latin-1")); continue
+        if c.get("twice") and not lenient and c["rule"] != "phony":
+            bad.append("ninja evaluates the command of %r although RefFalseCycle predicts that the reference reports a (false) cycle" % c["outs"][0]); continue
         got = r.stdout[:-1] if r.stdout.endswith(b"\n") else r.stdout
         if c["rule"] == "phony":
             if got: bad.append("ninja prints a command %r for a phony statement" % got)
@@ -560,7 +578,9 @@ def check_ninja(exp, d, words=None):
                 if p in producer: todo.append(producer[p])
         need = [i for i in need if exp["cmds"][i]["rule"] != "phony"]
         r = subprocess.run([NINJA, "-f", "build.ninja", "-t", "commands"], cwd=d, capture_output=True, timeout=60)
-        if r.returncode != 0: bad.append("ninja -t commands (default targets) failed: %s" % (r.stdout + r.stderr)[-300:].decode("latin-1"))
+        if r.returncode != 0:
+            if not (b"cycle in rule variables" in (r.stdout + r.stderr) and (lenient or any(exp["cmds"][i].get("twice") for i in need))):
+                bad.append("ninja -t commands (default targets) failed: %s" % (r.stdout + r.stderr)[-300:].decode("latin-1"))
         elif not any(match_segs([s for i in order for s in exp["cmds"][i]["ninja"]["command"] + [("s", b"\n")]], r.stdout, "sh") for order in itertools.permutations(need)):
             bad.append("ninja: the commands for the default targets %r are %r, specification expects those of statements %r" % (exp["defaults"], r.stdout, need))
     return bad
@@ -608,14 +628,15 @@ def do_job(job):
         res["stdout"] = out.decode("latin-1"); res["stderr"] = err.decode("latin-1")
     if job["ninja"] and "noninja" not in DEV:
         res["ran_ninja"] = True
-        res["specbad"] = check_ninja(exp, d, res["words"])
+        res["declined"] = []
+        res["specbad"] = check_ninja(exp, d, res["words"], res["declined"])
         if job.get("swap"):
             k = job["swap"]
             sc = dict(ast=swap_names(case["ast"], "command", k), exp=swap_names(case["exp"], "command", k))
             d2 = d + "s"
             V2, files2 = render(sc, job["vseed"], job["style"])
             write_files(d2, files2)
-            res["specbad"] += ["[%s as command] %s" % (k, t) for t in check_ninja(expected_of(sc, V2), d2)]
+            res["specbad"] += ["[%s as command] %s" % (k, t) for t in check_ninja(expected_of(sc, V2), d2, None, res["declined"], True)]
             shutil.rmtree(d2, ignore_errors=True)
         if res["specbad"]:
             res["files"] = {k.decode("latin-1"): v.decode("latin-1") for k, v in files.items()}
@@ -714,7 +735,7 @@ def enumerate_cases(tier, seed, wd):
     def sub(n, k): return "{" + ",".join(str(i) for i in sorted(rng.sample(range(1, n + 1), k))) + "}"
     simcfgs = []
     for k in range(nruns):
-        simcfgs.append((k, fam(FBSel=sub(11, 3), RCSel=sub(5, 2), RDSel=sub(3, 2), RESel=sub(8, 2), RNSel="{1,2}", BBSel=sub(10, 2),
+        simcfgs.append((k, fam(FBSel=sub(11, 3), RCSel=sub(6, 2), RDSel=sub(4, 2), RESel=sub(8, 2), RNSel="{1,2}", BBSel=sub(10, 2),
                                OutSel=sub(4, 2), InSel=sub(6, 2), BRSel="{1,2,3}"), rng.randrange(1 << 30)))
     def sim(a):
         k, consts, s = a
@@ -802,7 +823,8 @@ def run(pid, tier, seed):
     # --- the specification against the reference implementation
     nin = [r for r in results if r["ran_ninja"]]
     specbad = [r for r in nin if r["specbad"]]
-    log("[C17] reference ninja agrees with the specification on %d of %d manifests" % (len(nin) - len(specbad), len(nin)))
+    ref_declined = sum(1 for r in nin if r.get("declined"))
+    log("[C17] reference ninja agrees with the specification on %d of %d manifests (on %d of them it declined a statement with its false 'cycle in rule variables', as RefFalseCycle predicts)" % (len(nin) - len(specbad), len(nin), ref_declined))
     if specbad:
         r = specbad[0]
         p = vlib.save_replay(pid, "spec-mismatch", dict(property=pid, kind="spec-mismatch", what=r["specbad"], files=r.get("files"), case=jobs[r["id"]]["case"]))
@@ -847,7 +869,7 @@ def run(pid, tier, seed):
                rule="one program = one manifest AST (distinct statement lists per file) enumerated or sampled by TLC from spec/fn/NinjaEval.tla; one evaluation = one textual rendering loaded by `llbuild ninja load-manifest` and compared field by field; non-trivial = ASTs with at least one non-phony build statement whose rule variables are compared (not in the excluded re-binding class)",
                ast_features=feats, rendering_features=vf,
                quoted_words_read_back_by_sh=len(words),
-               spec_vs_ninja=dict(manifests=len(nin), agree=len(nin) - len(specbad), swapped=sum(1 for j in jobs if j.get("swap"))),
+               spec_vs_ninja=dict(manifests=len(nin), agree=len(nin) - len(specbad), reference_declined_false_cycle=ref_declined, swapped=sum(1 for j in jobs if j.get("swap"))),
                tlc_actions=acts,
                wall=dict(tlc=round(t1 - t0, 1), run=round(t2 - t1, 1)),
                samples=[dict(ast=c["ast"]) for c in cases[:1]])
